@@ -85,9 +85,11 @@ def mc_text(name, kind, dim, size, seed_compare="value", dk_refresh=True):
     if size == "mcquick":   # exhaustive design check of the quick tier: two seeds, two anisotropy tokens
         defs["SeedVals"] = "{%d, %d}" % (SEED_SMALL, SEED_BIG)
         defs["AnisVals"] = "{1}" if dim == 1 else "{1, 2}"
+        defs["LenVals"] = "{1}"
+        defs["UpdModels"] = defs["UpdModels"].replace("len |-> 2", "len |-> 1")
     mod = "---- MODULE %s ----\nEXTENDS Generator\n" % name
     mod += "".join("Mc%s == %s\n" % kv for kv in defs.items())
-    mod += 'DepthBound == TLCGet("level") <= 4\n====\n'
+    mod += 'DepthBound == TLCGet("level") <= %d\n====\n' % (4 if dim == 1 else 3)
     cfg = "CONSTANTS\n" + "".join(" %s <- Mc%s\n" % (k, k) for k in defs)
     return mod, cfg
 
@@ -601,7 +603,11 @@ def run(pid, tier, seed, replay=None):
                 mod, cfg = mc_text(name, sk, 2, "mc", seed_compare=sc_, dk_refresh=dk_)
                 sc.write(name + ".tla", mod)
                 jobs.append((("neg", sk, 2), sc, name, cfg_mc(cfg), dict(workers=2, timeout=1800)))
+        import time as _t
+        _t0 = _t.time()
         res = tlc.run_many(jobs, parallel=6)
+        print("TLC: %d jobs in %.0fs: %s" % (len(jobs), _t.time() - _t0,
+              ", ".join("%s/%s/%d %.0fs" % (k[0], k[1], k[2], r.wall) for k, r in sorted(res.items()))))
         for (k, sk, dim), r in sorted(res.items()):
             tlc.must_pass(r, "%s %s %d" % (k, sk, dim))
             if k == "neg":
@@ -633,8 +639,10 @@ def run(pid, tier, seed, replay=None):
                 work.append(("%s/Gaussian/3/manymodes" % kind, kind, "RandMeth", "Gaussian", 3, sc.dir, 40, rng.randrange(2**31), tier))
         import multiprocessing as mp
 
+        _t1 = _t.time()
         with mp.get_context("fork").Pool(14) as pool:
             for o in pool.imap_unordered(_work, work):
+                print("  replayed %-40s %4d behaviours, %5d calls (%.0fs)" % (o["tag"], o["traces"], o["calls"], _t.time() - _t1))
                 rep.traces += o["traces"]
                 rep.evaluations += o["calls"]
                 rep.nontrivial |= o["nontrivial"]
